@@ -102,6 +102,23 @@ Section Signer.
   Definition refresh_ttl (maxttl : Z) : Z := if maxttl <=? 0 then 0 else maxttl / 5.
   Definition need_refresh (maxttl left : Z) : bool := left <? refresh_ttl maxttl.
 
+  (** ** [authgate.Gate.CheckToken]: the session, then the caller's check
+      callback about the user named in it.  [cb u = None]: the callback
+      returned an error (the gate returns it and no information); [Some lvl]:
+      the level it granted (negative: the user is refused). *)
+  Record gate_info := mkGI { gi_valid : bool; gi_user : bytes; gi_level : Z; gi_refresh : bool }.
+
+  Definition gate_check_token (cb : bytes -> option Z) (k : K) (maxttl now : Z) (s : list N)
+    : option gate_info :=
+    match sess_check k now s with
+    | None => Some (mkGI false [] 0 false)
+    | Some (u, lft) =>
+        match cb u with
+        | None => None
+        | Some lvl => Some (mkGI (0 <=? lvl) u lvl (need_refresh maxttl lft))
+        end
+    end.
+
   (** ** Signed challenges (signer.go NewSignedChallenge / CheckChallenge)
 
       The challenge is the JSON of a nonce and a timestamp, signed as a blob.
